@@ -49,12 +49,23 @@ type c03Op struct {
 type c03Elem struct {
 	t    Type
 	vals []Expr // vals[0] = zero value, vals[1..3] = a, b, c
+	tag  string // "" or the name of a variant of the same element type
+}
+
+func (e c03Elem) label() string {
+	if e.tag != "" {
+		return e.tag
+	}
+	return e.t.Base
 }
 
 var c03Elems = []c03Elem{
-	{TInt, []Expr{lit(0), lit(1), lit(2), lit(3)}},
-	{TStr, []Expr{StrLit{V: ""}, StrLit{V: "p"}, StrLit{V: "q"}, StrLit{V: "r"}}},
-	{TBool, []Expr{BoolLit{false}, BoolLit{true}, BoolLit{true}, BoolLit{true}}},
+	{TInt, []Expr{lit(0), lit(1), lit(2), lit(3)}, ""},
+	{TStr, []Expr{StrLit{V: ""}, StrLit{V: "p"}, StrLit{V: "q"}, StrLit{V: "r"}}, ""},
+	{TBool, []Expr{BoolLit{false}, BoolLit{true}, BoolLit{true}, BoolLit{true}}, ""},
+	// strings that are formats, options or several words to a careless back-end (C03 only; C05 keeps to
+	// its cmd-neutral alphabet)
+	{TStr, []Expr{StrLit{V: ""}, StrLit{V: "50% off"}, StrLit{V: "%s -n"}, StrLit{V: "100%"}}, "string-rich"},
 }
 
 func (s *c03State) setAt(obj int, i int, val int) {
@@ -256,7 +267,7 @@ func c03HistName(hist []int, ops []c03Op, el c03Elem) string {
 	for _, o := range hist {
 		parts = append(parts, ops[o].name)
 	}
-	return "[]" + el.t.Base + ": " + strings.Join(parts, " ; ")
+	return "[]" + el.label() + ": " + strings.Join(parts, " ; ")
 }
 
 type c03Stats struct {
@@ -335,6 +346,9 @@ func c03Histories(r *findings.Run, stats *c03Stats, deadline time.Time) {
 		if ei == 0 {
 			kAll = 3
 		}
+		if el.tag != "" {
+			kBFS = 2 // a variant of an element type: all histories of two operations
+		}
 		if r.Thorough() {
 			kAll, kBFS = 3, 4
 			if ei == 0 {
@@ -371,13 +385,13 @@ func c03Histories(r *findings.Run, stats *c03Stats, deadline time.Time) {
 				op.apply(&ns)
 				stats.mu.Lock()
 				stats.transitions++
-				stats.states[el.t.Base+":"+ns.canon()] = true
+				stats.states[el.label()+":"+ns.canon()] = true
 				stats.mu.Unlock()
 				rec(append(append([]int{}, h...), oi), ns, depth+1)
 			}
 		}
 		init := c03State{objs: [][]int{{1, 2}, {}}, v: 0, w: 1}
-		stats.states[el.t.Base+":"+init.canon()] = true
+		stats.states[el.label()+":"+init.canon()] = true
 		rec(nil, init, 0)
 		nAll := len(progs)
 		// (b) BFS with merging
@@ -399,7 +413,7 @@ func c03Histories(r *findings.Run, stats *c03Stats, deadline time.Time) {
 					h := append(append([]int{}, nd.hist...), oi)
 					stats.mu.Lock()
 					stats.transitions++
-					stats.states[el.t.Base+":"+ns.canon()] = true
+					stats.states[el.label()+":"+ns.canon()] = true
 					stats.mu.Unlock()
 					add(h)
 					if c := ns.canon(); !seen[c] {
@@ -410,9 +424,9 @@ func c03Histories(r *findings.Run, stats *c03Stats, deadline time.Time) {
 			}
 			frontier = next
 		}
-		r.Set("histories_all_paths_"+el.t.Base, nAll)
-		r.Set("histories_bfs_extra_"+el.t.Base, len(progs)-nAll)
-		r.Set("bounds_"+el.t.Base, fmt.Sprintf("all paths depth<=%d, state-merged BFS depth<=%d, %d operations", kAll, kBFS, len(ops)))
+		r.Set("histories_all_paths_"+el.label(), nAll)
+		r.Set("histories_bfs_extra_"+el.label(), len(progs)-nAll)
+		r.Set("bounds_"+el.label(), fmt.Sprintf("all paths depth<=%d, state-merged BFS depth<=%d, %d operations", kAll, kBFS, len(ops)))
 		c03Run(r, progs, names, stats, deadline, "slice-history")
 	}
 }
@@ -505,6 +519,9 @@ func c03Sweeps(r *findings.Run, stats *c03Stats, deadline time.Time) {
 	}
 	// slice growth one element at a time with read-back (multi-digit indices), per element type
 	for _, el := range c03Elems {
+		if el.tag != "" {
+			continue
+		}
 		for _, n := range []int{L / 2, L} {
 			val := func(i Expr) Expr {
 				switch el.t.Base {
